@@ -1,6 +1,7 @@
 package props
 
 import (
+	"bytes"
 	"time"
 
 	"encoding/pem"
@@ -93,14 +94,18 @@ func TestC05(t *testing.T) {
 		}
 		return append(out, bad...)
 	}
-	signers := ok7("correct", "other-ca", "foreign-key", "wrong-name")
+	signers := ok7("correct", "other-ca", "foreign-key", "wrong-name", "tampered", "tampered")
 	outcomes := ok7("ok", "error", "empty", "garbage", "pem", "other-crl")
 	gen.Prop(t, "model", gen.N(3000, 150000), func(t *rapid.T) {
 		s := gen.NewStream(rapid.Uint64().Draw(t, "content"), "c05")
 		seed := rapid.SampledFrom(gen.PKISeeds).Draw(t, "pki")
 		nDP := rapid.IntRange(1, 3).Draw(t, "dps")
 		dps := []string{gen.RootCrlURL, "https://crl.example.test/b.der", "https://crl.example.test/c.der"}[:nDP]
-		p := gen.NewPKI(gen.PKISpec{Seed: seed, RootCRLDP: dps})
+		qeSameKey := rapid.IntRange(0, 2).Draw(t, "qeSignerSharesKeyWithTcbSigner") == 0
+		p := gen.NewPKI(gen.PKISpec{Seed: seed, RootCRLDP: dps, QeSameKey: qeSameKey})
+		if qeSameKey {
+			gen.Class("qe-signer-is-a-second-certificate-for-the-tcb-signer-key")
+		}
 		w := gen.NewWorld(p, s)
 		if rapid.Bool().Draw(t, "bigserial") {
 			w.LeafSpec.Serial = append([]byte{0x7f}, s.Bytes(19)...)
@@ -140,6 +145,7 @@ func TestC05(t *testing.T) {
 		root.revokedAt = datesFor(len(root.revoked))
 
 		foreign := gen.DeriveKey("c05/foreign")
+		authentic := map[string][]byte{} // per kind: the CRL as its issuer really signed it
 		mk := func(kind string, pl crlPlan) []byte {
 			issuerCert, key := p.Int, p.Int.Key
 			otherCert, otherKey := p.Root, p.Root.Key
@@ -147,6 +153,7 @@ func TestC05(t *testing.T) {
 				issuerCert, key, otherCert, otherKey = p.Root, p.Root.Key, p.Int, p.Int.Key
 			}
 			spec := gen.CRLSpec{Revoked: pl.revoked, RevokedAt: pl.revokedAt}
+			authentic[kind] = gen.MakeCRL(issuerCert, key, spec)
 			switch pl.signer {
 			case "other-ca":
 				return gen.MakeCRL(issuerCert, otherKey, spec) // right name, signed by the other CA's key
@@ -154,6 +161,31 @@ func TestC05(t *testing.T) {
 				return gen.MakeCRL(issuerCert, foreign, spec)
 			case "wrong-name":
 				return gen.MakeCRL(otherCert, key, spec) // right key, other issuer name
+			case "tampered":
+				// the authentic CRL with one listed serial altered after signing (signature bytes untouched)
+				victim := append([]byte{0x5a}, s.Bytes(9)...)
+				for _, name := range []string{"leaf", "int", "tcb", "qe"} {
+					if pl.contains[name] {
+						victim = targets[name]
+					}
+				}
+				listed := false
+				for _, e := range spec.Revoked {
+					if bytes.Equal(e, victim) {
+						listed = true
+					}
+				}
+				if !listed {
+					spec.Revoked = append(append([][]byte{}, spec.Revoked...), victim)
+				}
+				authentic[kind] = gen.MakeCRL(issuerCert, key, spec)
+				der := append([]byte{}, authentic[kind]...)
+				i := bytes.Index(der, victim)
+				if i < 0 {
+					gen.HarnessError(t, "tampered CRL: listed serial not found in the DER")
+				}
+				der[i+len(victim)-1] ^= 0x01
+				return der
 			}
 			return gen.MakeCRL(issuerCert, key, spec)
 		}
@@ -245,8 +277,26 @@ func TestC05(t *testing.T) {
 				}
 			}
 		}
+		// ---- history: the same process may have seen the authentic lists a moment ago ----
+		history := "fresh"
+		if rapid.Bool().Draw(t, "authenticListsVerifiedFirst") {
+			history = "after-authentic-lists"
+			g0 := w.NewGetter()
+			g0.Resp[gen.PckCrlURL("platform")] = gen.Response{Header: map[string][]string{gen.HdrPckCrl: {gen.IssuerChainHeader(p.Int, p.Root)}}, Body: authentic["pck"]}
+			for _, u := range dps {
+				g0.Resp[u] = gen.Response{Body: authentic["root"]}
+			}
+			o0 := w.Options(gen.LvlCRL, g0, nil)
+			gen.Eval()
+			if v0 := gen.Call(func() error { return verify.RawTdxQuote(w.Raw, o0) }); v0.Panicked() {
+				gen.Fail(t, gen.Violation{Key: "panic@" + gen.PanicSite(v0.Stack), Oracle: "verification returns a verdict", Detail: v0.Panic, Replay: w.CaseFile(gen.LvlCRL, nil, g0.Resp, nil, "nopanic")})
+				return
+			}
+		}
+		gen.Class("history:" + history)
 		// ---- run ----
 		rp := w.CaseFile(gen.LvlCRL, nil, nil, nil, map[bool]string{true: "reject", false: "accept"}[reject != ""])
+		rp["history"] = history
 		o := w.Options(gen.LvlCRL, w.NewGetter(), nil)
 		gen.Eval()
 		v := gen.Call(func() error { return verify.RawTdxQuote(w.Raw, o) })
@@ -254,7 +304,7 @@ func TestC05(t *testing.T) {
 			gen.Fail(t, gen.Violation{Key: "panic@" + gen.PanicSite(v.Stack), Oracle: "verification returns a verdict", Detail: v.Panic, Replay: rp})
 			return
 		}
-		desc := fmt.Sprintf("pck{%s,%s,hdr=%s,lists=%v} root{%s,dps=%v,lists=%v}", pck.signer, pck.outcome, pck.header, keysOf(pck.contains), root.signer, dpOutcome, keysOf(root.contains))
+		desc := fmt.Sprintf("pck{%s,%s,hdr=%s,lists=%v} root{%s,dps=%v,lists=%v} qeSignerSharesKey=%v history=%s", pck.signer, pck.outcome, pck.header, keysOf(pck.contains), root.signer, dpOutcome, keysOf(root.contains), qeSameKey, history)
 		if reject != "" && v.Accepted() {
 			gen.Fail(t, gen.Violation{Key: "accepts-despite:" + keyClass(reject), Oracle: "with revocation on, accepted only if both CRLs were obtained and authenticated and none of the four serials is listed", Detail: desc + ": " + reject, Replay: rp})
 			return
